@@ -78,7 +78,7 @@ func shapeViolation(text string, ms engine.Matches, firstNumber int) string {
 		if m.Line.Start != ls || m.Line.End != le {
 			return fmt.Sprintf("match %d [%d,%d): Line [%d,%d], expected [%d,%d]", i, s, e, m.Line.Start, m.Line.End, ls, le)
 		}
-		if m.Column.Start != cs || m.Column.End != ce {
+		if isASCII(text) && (m.Column.Start != cs || m.Column.End != ce) { // the column claim is made for ASCII inputs
 			return fmt.Sprintf("match %d [%d,%d): Column [%d,%d], expected [%d,%d]", i, s, e, m.Column.Start, m.Column.End, cs, ce)
 		}
 		for k, v := range stringVars(m) {
@@ -152,6 +152,8 @@ var d6Fixed = []string{
 	"whole line", "whole word", "whole file", "not whole line", "whole line '\\n' whole line", "(whole word) = w ' ' w",
 	"(at least 1 any fewest) = x '\\n' x", "file start any", "any file end", "not line start any", "in 'a', ' ' to '!'", "caseless 'A' not in 'a'",
 	"{'a' maybe s '\\n'} = s", "({any} = one) one",
+	// literals of more than one byte per character: offsets and columns count bytes
+	"'\xc3\xa9'", "'\xc3\xa9' any", "'a\xc3\xa9' maybe ' '", "caseless '\xc3\xa9A'", "not '\xc3\xa9a' any", "in '\xc3\xa9', 'a'", "('\xe2\x82\xac' = e) ' ' e",
 }
 
 func init() {
@@ -184,7 +186,8 @@ func runC03(c *Ctx) {
 		}
 	}
 	if c.Level("D6:fixed") {
-		long := append(texts("a \n", 5), "a a\na a\n", "aa,a\n,a\na", "a\n\na  a", "a\r\na", " a\n a\n")
+		long := append(texts("a \n", 5), "a a\na a\n", "aa,a\n,a\na", "a\n\na  a", "a\r\na", " a\n a\n",
+			"caf\xc3\xa9 \xc3\xa9 a\xc3\xa9\n\xc3\xa9", "\xc3\xa9a\xc3\xa9A \xe2\x82\xac \xe2\x82\xac", "\xc3\xa9")
 		for _, src := range d6Fixed {
 			src := src
 			if c.Unit(func() string { return src }) {
@@ -287,4 +290,13 @@ func runC03(c *Ctx) {
 			}
 		}
 	}
+}
+
+func isASCII(s string) bool {
+	for i := 0; i < len(s); i++ {
+		if s[i] >= 0x80 {
+			return false
+		}
+	}
+	return true
 }
